@@ -11,50 +11,53 @@ import (
 type xpathImpl struct {
 }
 
-func (xp xpathImpl) resolvePath(seg *xpath.Path, s *Selection) (*Selection, error) {
+// resolvePath walks through container and list segments itself; it also reports the
+// last segment it resolved so that XFind continues after it
+func (xp xpathImpl) resolvePath(seg *xpath.Path, s *Selection) (*Selection, *xpath.Path, error) {
 	m := meta.Find(s.Meta().(meta.HasDefinitions), seg.Ident)
 	if m == nil {
-		return nil, fmt.Errorf("'%s' not found in xpath", seg.Ident)
+		return nil, nil, fmt.Errorf("'%s' not found in xpath", seg.Ident)
 	}
 	if meta.IsContainer(m) {
 		sel, err := s.Find(seg.Ident)
 		if err != nil || sel == nil {
-			return nil, err
+			return nil, nil, err
 		}
 		return xp.resolvePath(seg.Next, sel)
 	}
 	if meta.IsList(m) {
 		sel, err := s.Find(seg.Ident)
 		if sel == nil || err != nil {
-			return nil, err
+			return nil, nil, err
 		}
 
 		// TODO: expand this to look at expressions and nested xpath segments
 		if seg.Next == nil && seg.Expr == nil {
-			return sel, err
+			return sel, seg, err
 		}
 
 		li, err := sel.First()
 		if err != nil {
-			return nil, err
+			return nil, nil, err
 		}
 		nextSeg := seg.Next
 		for li.Selection != nil {
-			if s, err = xp.resolvePath(nextSeg, li.Selection); s != nil || err != nil {
-				return s, err
+			var last *xpath.Path
+			if s, last, err = xp.resolvePath(nextSeg, li.Selection); s != nil || err != nil {
+				return s, last, err
 			}
 			if li, err = li.Next(); err != nil {
-				return nil, err
+				return nil, nil, err
 			}
 		}
-		return nil, nil
+		return nil, nil, nil
 	}
 	if meta.IsLeaf(m) {
 		match, err := xp.resolveExpression(seg.Ident, seg.Expr, s)
 		if err != nil || !match {
-			return nil, err
+			return nil, nil, err
 		}
-		return s, nil
+		return s, seg, nil
 	}
 	panic("type not supported " + m.Ident())
 }
